@@ -368,10 +368,10 @@ Proof.
     destruct (a_st a) eqn:Est; try (intros H; inversion H; subst; apply SQ_of_keeps, keeps_refl); apply HT; congruence.
   - (* STerminatedOf *) apply bind_SQ.
     + intros s1 o1 p1 E.
-      assert (R0 : RI (upd_actor s w (fun b => w_children (remove_ref who (a_children b)) b))).
-      { eapply RI_ext; [exact HR|apply ext_of_keep; [apply keep_upd_actor; kp|apply regsame_upd_actor]]. }
+      assert (R0 : RI (drop_child s w who)).
+      { eapply RI_ext; [exact HR|apply ext_of_keep; [apply keep_drop_child|apply regsame_drop_child]]. }
       destruct (handle_SQ_RI _ _ _ _ _ _ _ _ R0 E) as [Q R']. split; [|exact R'].
-      apply SQ_trans with (o1 := []) (s2 := upd_actor s w (fun b => w_children (remove_ref who (a_children b)) b)); [apply SQ_of_keeps; apply keeps_upd_actor; ks|exact Q].
+      apply SQ_trans with (o1 := []) (s2 := drop_child s w who); [apply SQ_of_keeps; unfold drop_child; destruct (lookup who (registry s)); [apply keeps_refl|apply keeps_upd_actor; ks]|exact Q].
     + intros s1 s2 o2 p2 R1. destruct (get s1 w) as [a2|]; [|intros H; inversion H; subst; apply SQ_of_keeps, keeps_refl].
       destruct (a_st a2); try (intros H; inversion H; subst; apply SQ_of_keeps, keeps_refl).
       * apply SQ_try_restarted; exact R1.
